@@ -163,7 +163,6 @@ _FALLBACK_METHOD_FROM_TD_NOWRAP = [
     "batch_dims",
     "batch_size",
     "bytes",
-    "cat_tensors",
     "data_ptr",
     "depth",
     "dim",
@@ -291,6 +290,7 @@ _FALLBACK_METHOD_FROM_TD = [
     "bool",
     "cat",
     "cat_from_tensordict",
+    "cat_tensors",
     "ceil",
     "ceil_",
     "chunk",
